@@ -28,6 +28,12 @@ BAND = 0.02
 MIN_EDGE = 1e-3          # model-coordinate edge length below which a polygon is not judged
 XLIM_HP = (-6.0, 6.0)    # default half-plane view of HyperbolicDrawing
 YLIM_HP = (-0.1, 8.0)
+_WIN = {"x": XLIM_HP, "y": YLIM_HP}     # the half-plane window of the drawing of the current case
+
+
+def _screen_x():
+    (x0, x1) = _WIN["x"]
+    return x0 - OFF * (x1 - x0), x1 + OFF * (x1 - x0)
 OFF = 0.1                # OFFSCREEN_FACTOR
 
 ARC_MODELS = ["poincare", "halfspace"]
@@ -156,9 +162,11 @@ def hyp_drawing(case, model, init=None):
     kw = dict(model=al[case["fig"].get("alias", 0) % len(al)])
     if init is not None:
         kw["transform"] = hyperbolic.Isometry(np.array(init, dtype=float))
+    _WIN["x"], _WIN["y"] = XLIM_HP, YLIM_HP
     if model == "halfspace" and case["fig"].get("size", 1) in (2, 3):
         # a window of the caller's choosing (wider than the default one and off centre)
         kw["xlim"], kw["ylim"] = (-9.0, 21.0), (0.0, 24.0)
+        _WIN["x"], _WIN["y"] = kw["xlim"], kw["ylim"]
     return make_drawing(drawtools.HyperbolicDrawing, case["fig"], **kw)
 
 
@@ -591,7 +599,7 @@ def check_polygon_path(ctx, model, verts, path_vertices, path_codes, ideal_norm=
                           np.abs(pts - np.array([p, q])) / tol, 1.0, edge=i, got=pts,
                           want=[p, q], radius=r)
             else:
-                lo, hi = XLIM_HP[0] * (1 + 2 * OFF), XLIM_HP[1] * (1 + 2 * OFF)
+                lo, hi = _screen_x()
                 if not (lo < p[0] < hi and lo < q[0] < hi):
                     ctx.label("excluded:offscreen-vertical")
                     continue
@@ -1152,7 +1160,7 @@ def body_geodesic(case, ctx):
                           want=[p, q], radius=r)
                 continue
             # half-plane: vertical line through the on-screen endpoint (deliberate)
-            lo, hi = XLIM_HP[0] * (1 + 2 * OFF), XLIM_HP[1] * (1 + 2 * OFF)
+            lo, hi = _screen_x()
             on = [bool(np.isfinite(e[0]) and lo < e[0] < hi) for e in (p, q)]
             if not on[0] and not on[1]:
                 ctx.label("excluded:offscreen-vertical")
@@ -1170,7 +1178,7 @@ def body_geodesic(case, ctx):
                                                         ideal_norm), 1.0, k=k, got=V, want=b)
                 ctx.label("vertical-gap" + ("<1e-1" if abs(a[0] - b[0]) < 0.1 else ">=1e-1"))
             else:
-                ctx.check(V[1][1] >= YLIM_HP[1], "vertical substitute leaves the view upwards",
+                ctx.check(V[1][1] >= _WIN["y"][1], "vertical substitute leaves the view upwards",
                           k=k, got=V, up=up_inf)
                 ctx.label("to-infinity")
 
